@@ -134,7 +134,7 @@ def build_model(log):
 
 # --------------------------------------------------------------------------- running cases
 
-def run_lines(binary, lines, shards=None, timeout=1200, env=None, cwd=None):
+def run_lines(binary, lines, shards=None, timeout=1200, env=None, cwd=None, clean_env=False):
     """Feed [lines] to a line-protocol binary; returns one output line per input line."""
     if not lines:
         return []
@@ -143,7 +143,7 @@ def run_lines(binary, lines, shards=None, timeout=1200, env=None, cwd=None):
         shards = max(1, min(NCPU, n // 200))
     size = (n + shards - 1) // shards
     procs = []
-    e = dict(os.environ)
+    e = {} if clean_env else dict(os.environ)
     if env:
         e.update(env)
     for i in range(0, n, size):
